@@ -1,6 +1,7 @@
 package props
 
 import (
+	goerrors "errors"
 	"fmt"
 	"strings"
 
@@ -228,7 +229,18 @@ func runC07(c *core.Ctx, r *core.Result) {
 								return fail("mark-identity", "ctx(Mark(e, r1)) and ctx(Mark(e, r2)) are not equivalent although they have the same text and type chain (panic=%v)", p)
 							}
 						}
-						for _, x := range refs {
+						// bystanders: errors with the reference's text and the
+						// reference's outermost type over a different chain are not
+						// equivalent to it
+						rt := errText(ref)
+						bystanders := []tm.NamedErr{
+							{Name: "WithStack(stdlib leaf with the reference's text)", Err: errors.WithStack(goerrors.New(rt))},
+							{Name: "WithStack(WithStack(stdlib leaf with the reference's text))", Err: errors.WithStack(errors.WithStack(goerrors.New(rt)))},
+							{Name: "stdlib leaf with the reference's text", Err: goerrors.New(rt)},
+							{Name: "WithMessage(stdlib leaf, \"\") with the reference's text", Err: errors.WithMessage(goerrors.New(rt), "")},
+							{Name: "WithDomain(same text)", Err: errors.WithDomain(goerrors.New(rt), errors.GetDomain(ref))},
+						}
+						for _, x := range append(append([]tm.NamedErr{}, refs...), bystanders...) {
 							base, _ := tm.IsG(inner, x.Err)
 							got, _ := tm.IsG(marked, x.Err)
 							want := base || tm.RefMark(x.Err) == tm.RefMark(ref)
